@@ -3,6 +3,12 @@ import json
 props = [json.loads(l) for l in open("/verif/properties.jsonl")]
 E1 = "symbolic execution of the real Python code with an SMT solver (CrossHair/z3), bounded box, partitioned; counterexamples replayed on the plain interpreter"
 CLAIMED = {
+    "C01": dict(text="7 design templates (slices/concats, port references + no-connects, bundles, arrays, pairs, hierarchy, construction styles) with symbolic widths, indices, sizes and connection selectors; exported package read as the VLSIR netlisters read it AND the emitted spice text, both compared with an independent union-find reference semantics on the leaf-level net partition, leaf devices and parameters",
+                note="trusted: reference semantics vlib/dsl.py (written from the documentation), package/spice readers vlib/pkgread.py, CrossHair/z3 + prelude", tech=E1),
+    "C06": dict(text="closure validator (unique names, definition before use, ports name signals, each target port connected exactly once, in-range width-equal targets) + from_proto + spice and spectre netlisters as a post-condition on every explored path of the design templates; repository examples and built-in generators as concrete seeds",
+                note="trusted: vlib/pkgread.check_package; concrete seeds are not solver-decided", tech=E1),
+    "C11": dict(text="to_proto(from_proto(P)) == P as a post-condition on every design-template path, plus parameter space (8 device kinds x mantissa x exponent x 21 prefixes, solver-enumerated), slice/concat index conventions (symbolic width and bounds) and external-module headers (14 spice types x directions x widths x order)",
+                note="values realise at the pydantic/protobuf boundary: bounded-exhaustive enumeration by the solver, no generalisation beyond the box", tech=E1),
     "C03": dict(text="index/slice normalisation kernels decided over UNBOUNDED integers (w, a, b) for each constant step in +-1..+-6; nested slice/concat/reference resolution through the real elaborator+exporter compared with Python list slicing inside a bounded box (W<=3)",
                 note="trusted: CrossHair 0.0.110 + prelude work-arounds (pydantic validation stub, format stub), z3, closed-form CPython slice oracle, pkg_nets reader", tech=E1),
     "C14": dict(text="the real source of hdl21/prefix.py executed symbolically over a Decimal model (two-integer coefficient/exponent, 28-digit context) with symbolic mantissas; unary ops for 25-digit mantissas, binary ops and comparisons in stated smaller boxes; QF_FP lemma for float() when computed by float multiplication",
